@@ -33,6 +33,9 @@ def proj_value(pv):
     return out
 
 
+MODE = {'minified': False, 'drop': ()}   # set by the harness while a projection for the minified preset is taken
+
+
 def proj_style(cssutils, style):
     out = []
     for item in style.seq:
@@ -42,7 +45,8 @@ def proj_style(cssutils, style):
                 continue   # never serialised
             out.append(('prop', val.name, proj_value(val.propertyValue), val.priority))
         elif isinstance(val, cssutils.css.CSSComment):
-            out.append(('comment', val.cssText))
+            if not MODE['minified']:
+                out.append(('comment', val.cssText))
         else:
             out.append(('other', item.type, str(val)))
     return out
@@ -53,8 +57,14 @@ def proj_selector(sel):
     for item in sel.seq:
         v = item.value
         if hasattr(v, 'cssText'):
+            if MODE['minified']:
+                continue
             v = v.cssText
         items.append((item.type, v if not isinstance(v, tuple) else ('ns',) + tuple(v)))
+    if MODE['minified']:
+        # adjacent descendant combinators left over after dropping a comment
+        items = [x for i, x in enumerate(items) if not (x[0] == 'descendant' and i and items[i - 1][0] == 'descendant')]
+        return (sel.specificity, items)
     return (sel.selectorText, sel.specificity, items)
 
 
@@ -71,7 +81,7 @@ def proj_rule(cssutils, r):
     if t == RULE.CHARSET_RULE:
         return ('charset', r.encoding)
     if t == RULE.IMPORT_RULE:
-        return ('import', r.href, r.hreftype, proj_media(r.media), r.name)
+        return ('import', r.href, None if MODE['minified'] else r.hreftype, proj_media(r.media), r.name)
     if t == RULE.NAMESPACE_RULE:
         return ('namespace', r.prefix, r.namespaceURI)
     if t == RULE.MEDIA_RULE:
@@ -92,7 +102,8 @@ def proj_rule(cssutils, r):
 def project_rules(cssutils, rules):
     """rules that serialise to nothing (empty blocks with keepEmptyRules=False, ill-formed rules) are not part of
     what the serialisation denotes"""
-    return [proj_rule(cssutils, r) for r in rules if r.cssText]
+    out = [proj_rule(cssutils, r) for r in rules if r.cssText]
+    return [x for x in out if x[0] not in MODE['drop']]
 
 
 def project(cssutils, sheet):
@@ -396,8 +407,13 @@ class Gen:
                     s += '[%s]' % att
                 else:
                     s += '[%s%s%s]' % (att, op, self.c.string() if rng.random() < 0.7 else self.c.ident())
-            else:
+            elif r < 0.85 or not self.prefixes:
                 s += rng.choice(PSEUDO)
+            else:
+                # namespaced names in the other positions: attribute, negation
+                pre = rng.choice(self.prefixes + ['*', ''])
+                s += rng.choice(['[%s|att]' % pre, '[%s|att=v]' % pre, ':not(%s|e)' % pre, ':not(%s|*)' % pre,
+                                 ':not([%s|att])' % pre])
         return s
 
     def selector(self):
@@ -698,4 +714,115 @@ def uri_values(cssutils, sheet):
                         out.append(v)
             except Exception:
                 pass
+    return out
+
+
+# ------------------------------------------------------------------------------------------------
+# structural edits by index on sheets with every rule kind in every position
+HEADER = ['@charset "utf-8";', '/*h*/', '@import "first.css";', '@namespace p "http://p";']
+BODY = {
+    'fontface': '@font-face{font-family:"F";src:url(f.woff)}',
+    'style': 'b{left:0}',
+    'media': '@media print{b{top:0}}',
+    'page': '@page :first{margin:0}',
+    'unknown': '@foo bar;',
+    'comment': '/*c*/',
+    'variables': '@variables{v:1px}',
+}
+INSERT = {
+    'charset': '@charset "ascii";',
+    'comment': '/*new*/',
+    'import': '@import "late.css" print;',
+    'namespace': '@namespace n "http://n";',
+    'variables': '@variables{w:2px}',
+    'fontface': '@font-face{font-family:"G"}',
+    'style': 'i{right:0}',
+    'media': '@media tv{i{right:0}}',
+    'page': '@page :left{margin:1px}',
+    'unknown': '@bar baz;',
+}
+
+
+def structural_bases(rng, full):
+    """source texts: full header + one body rule; no header + every ordered pair of body rules"""
+    out = []
+    for k, b in BODY.items():
+        out.append(''.join(HEADER) + b + 'a{color:red}')
+        out.append(''.join(HEADER[2:3]) + b)
+    pairs = [(x, y) for x in BODY for y in BODY]
+    if not full:
+        pairs = rng.sample(pairs, 14)
+    for x, y in pairs:
+        out.append(BODY[x] + BODY[y])
+    return out
+
+
+def apply_op(cssutils, sheet, op):
+    """one structural / namespace operation; True if the implementation accepted it"""
+    name = op[0]
+    try:
+        if name == 'insertRule':
+            sheet.insertRule(op[1], op[2])
+        elif name == 'insertRuleObject':
+            tmp = cssutils.parseString(op[1])
+            sheet.insertRule(tmp.cssRules[0], op[2])
+        elif name == 'deleteRule':
+            sheet.deleteRule(op[1])
+        elif name == 'add':
+            sheet.add(op[1])
+        elif name == 'delns':
+            del sheet.namespaces[op[1]]
+        elif name == 'setns':
+            sheet.namespaces[op[1]] = op[2]
+        elif name == 'selectorText':
+            rules_of(sheet, (RULE.STYLE_RULE,))[op[1]].selectorText = op[2]
+        elif name == 'none':
+            pass
+        else:
+            raise ValueError(name)
+    except (xml.dom.DOMException, IndexError, KeyError):
+        return False
+    return True
+
+
+def structural_ops(n_rules):
+    ops = []
+    for kind, text in INSERT.items():
+        for i in range(n_rules + 1):
+            ops.append(['insertRule', text, i])
+        ops.append(['add', text])
+        ops.append(['insertRuleObject', text, n_rules])
+    for i in range(n_rules):
+        ops.append(['deleteRule', i])
+    return ops
+
+
+# namespaced selectors in every position
+NS_FORMS = ['x[a]', '*[a=b]', ':not([a])', 'p|x', '*|x', '|x', 'p|*', '*|*', 'x[p|a]', 'x[*|a]', 'x[|a=b]', '[p|a~="v"]', '*:not(p|e)', 'x:not(*|e)',
+            'x:not(|e)', ':not(p|*)', 'y p|x > q|z', 'q|y:not(p|e) + x', 'x:not([p|a])', 'p|x:hover::before', 'x, p|y']
+NS_DECLS = ['@namespace p "http://p";@namespace q "http://q";',
+            '@namespace "http://d";@namespace p "http://p";@namespace q "http://q";',
+            '@namespace p "http://p";@namespace q "http://q";@namespace r "http://p";']
+
+
+def namespace_cases(rng, full):
+    """(source, op) pairs"""
+    out = []
+    forms = NS_FORMS if full else NS_FORMS
+    for form in forms:
+        decls_list = NS_DECLS if full else [NS_DECLS[0], rng.choice(NS_DECLS[1:])]
+        for decls in decls_list:
+            n_ns = decls.count('@namespace')
+            for wrap in ('%s{c:d}', '@media print{%s{c:d}}'):
+                if not full and wrap.startswith('@media') and rng.random() < 0.5:
+                    continue
+                src = decls + wrap % form
+                ops = [['none']] + [['deleteRule', i] for i in range(n_ns)] + \
+                      [['delns', 'p'], ['delns', 'q'], ['setns', 'p', 'http://other'], ['setns', 'q', 'http://p'],
+                       ['add', '@namespace p "http://again";'], ['insertRule', '@namespace s "http://p";', 0],
+                       ['insertRule', '@namespace "http://newdefault";', 0]]
+                if wrap == '%s{c:d}':
+                    ops += [['selectorText', 0, f] for f in ('x', 'q|x', '*:not(q|e)')]
+                for op in ops:
+                    out.append((src, op))
     return out
